@@ -1,0 +1,14 @@
+//go:build verif
+
+package shutterservice
+
+import "github.com/jackc/pgx/v4/pgxpool"
+
+// Constructor for the verification harness (family sig, property C06). Add-only: nothing here
+// changes behaviour, the file does not exist for the compiler without the verif tag.
+
+// VerifSigKeysHandler returns the decryption keys handler exactly as Start registers it
+// (its dbpool field is unexported).
+func VerifSigKeysHandler(dbpool *pgxpool.Pool) *DecryptionKeysHandler {
+	return &DecryptionKeysHandler{dbpool: dbpool}
+}
